@@ -1,0 +1,26 @@
+//go:build verif
+
+// Verification hook (build tag "verif"): the global variables recorded by
+// the emitter for a template. Add-only; not compiled without the tag.
+
+package scriggo
+
+// VerifGlobal describes one entry of Template.globals.
+type VerifGlobal struct {
+	Pkg      string
+	Name     string
+	Type     string
+	HasValue bool
+}
+
+// VerifGlobals returns the globals of t in the order of their indexes.
+func VerifGlobals(t *Template) []VerifGlobal {
+	gs := make([]VerifGlobal, len(t.globals))
+	for i, g := range t.globals {
+		gs[i] = VerifGlobal{Pkg: g.Pkg, Name: g.Name, HasValue: g.Value.IsValid()}
+		if g.Type != nil {
+			gs[i].Type = g.Type.String()
+		}
+	}
+	return gs
+}
